@@ -902,7 +902,8 @@ class CompressedBlockColumn(Column):
             pos = 0
             while pos < length:
                 startdoc, enddoc, blocklen, lengths = dbfile.read_pickle()
-                here = dbfile.tell()
+                # Block positions are relative to the start of the column
+                here = dbfile.tell() - basepos
                 self._blocks.append((startdoc, enddoc, here, blocklen,
                                      lengths))
                 dbfile.seek(blocklen, 1)
